@@ -134,7 +134,7 @@ Fixpoint fgrad (w : list T) (f : fexpr) (x : list T) : list T :=
   | FQuot f g =>
       let fx := feval w f x in let gx := feval w g x in
       vadd (vscal (none_ / gx) (fgrad w f x)) (vscal (- fx / (gx * gx)) (fgrad w g x))
-  | FRVec f v => vmul v (fgrad w f (vmul v x))                    (* v * f.gradient * v *)
+  | FRVec f v => vmul v (fgrad w f (vmul x v))                    (* v * f.gradient * v *)
   | FCompM f w' n rows =>                                        (* op'(x)^* (f.gradient(op x)) *)
       let g := fgrad w' f (mvec rows x) in
       if mav then vdiv (mtvec n rows (vmul w' g)) w else mtvec n rows g
